@@ -86,6 +86,8 @@ impl OligoCgrComputer {
 
                 // Define a closure to handle buffer processing
                 let mut process_buffer = |buffer: &Vec<Sequence>| {
+                    #[cfg(feature = "verif_hooks")]
+                    ktio::verif::emit("oligocgr.batch_flush", &[buffer.len() as u64]);
                     let result = buffer
                         .par_iter()
                         .map(|seq| {
@@ -145,9 +147,19 @@ impl OligoCgrComputer {
     fn seq_to_kmer(&self, seq: &[u8]) -> Vec<f64> {
         let mut vec = vec![0_f64; self.kcount];
         let mut total = 0_f64;
+        #[cfg(feature = "verif_hooks")]
+        let mut verif_idx = [0_u64; 3];
 
         for (fmer, rmer) in KmerGenerator::new(seq, self.ksize) {
             let min_mer = u64::min(fmer, rmer);
+            #[cfg(feature = "verif_hooks")]
+            {
+                verif_idx[0] = verif_idx[0].max(min_mer + 1);
+                if let Some(&p) = self.pos_map.get(min_mer as usize) {
+                    verif_idx[1] = verif_idx[1].max(p as u64 + 1);
+                }
+                verif_idx[2] += 1;
+            }
             unsafe {
                 // we already know the size of the vector and
                 // min_mer is absolutely smaller than that
@@ -156,6 +168,17 @@ impl OligoCgrComputer {
                 total += 1_f64;
             }
         }
+        #[cfg(feature = "verif_hooks")]
+        ktio::verif::emit(
+            "oligocgr.idx",
+            &[
+                verif_idx[0],
+                self.pos_map.len() as u64,
+                verif_idx[1],
+                vec.len() as u64,
+                verif_idx[2],
+            ],
+        );
         if self.norm {
             vec.iter_mut().for_each(|el| *el /= f64::max(1_f64, total));
         }
@@ -186,6 +209,19 @@ impl OligoCgrComputer {
         .collect();
 
         (cgr_center, cgr_dict)
+    }
+}
+
+/// public wrappers around private items, for the verification harness only
+#[cfg(feature = "verif_hooks")]
+impl OligoCgrComputer {
+    pub fn verif_set_max_memory(&mut self, memory: usize) {
+        self.memory = memory;
+    }
+
+    #[allow(clippy::type_complexity)]
+    pub fn verif_vectorise_one(&self, seq: &[u8]) -> Result<Vec<(Point, f64)>, String> {
+        self.vectorise_one(seq)
     }
 }
 
